@@ -106,10 +106,18 @@ contains
   end subroutine asub
 end module alib3
 """,
+    # a module that re-exports entities of the first under new names
+    "src/alib4.f90": """module alib4
+  !! fourth library module
+  use alib, only: packet => shape_t, api_sub => asub
+  implicit none
+end module alib4
+""",
 }
 A_PUBLIC = {"alib": {"pub_procs": {"asub", "afun", "agen", "area"}, "pub_types": {"shape_t"}, "pub_vars": {"avar"}, "pub_absints": {"aabs"}},
             "alib2": {"pub_procs": {"asub", "afun", "agen", "area", "second_sub"}, "pub_types": {"shape_t"}, "pub_vars": {"avar", "second_var"}, "pub_absints": {"aabs"}},
-            "alib3": {"pub_procs": {"asub"}, "pub_types": {"shape_t"}, "pub_vars": set(), "pub_absints": set()}}
+            "alib3": {"pub_procs": {"asub"}, "pub_types": {"shape_t"}, "pub_vars": set(), "pub_absints": set()},
+            "alib4": {"pub_procs": {"api_sub"}, "pub_types": {"packet"}, "pub_vars": set(), "pub_absints": set()}}
 # text found only on the page of A that documents (module, entity)
 A_MARK = {("alib", "shape_t"): "public type", ("alib3", "shape_t"): "another shape_t of alib3", ("alib", "asub"): "public subroutine", ("alib3", "asub"): "another asub of alib3"}
 
@@ -125,6 +133,17 @@ contains
     call asub(1.0)
   end subroutine bsub3
 end module bmod3
+module bmod5
+  !! uses entities the library re-exports under new names
+  use alib4
+  implicit none
+  type(packet) :: holder5
+  !! variable of a renamed external type
+  type, extends(packet) :: b5_t
+    !! extends the renamed external type
+    integer :: extra5
+  end type b5_t
+end module bmod5
 module bmod4
   !! interface bodies that import from the library themselves
   implicit none
@@ -366,6 +385,7 @@ def run_history(st: Stats, case):
         # B's own pages: what is linked locally
         local_mod = "module/alib.html" in site.pages
         linked_names = set()
+        alib_from = {}
         linked_alib = set()  # ... of which entities of the module alib itself (alib3 repeats two of its names)
         seen_problem = set()
         for (page, url) in hrefs:
@@ -375,8 +395,10 @@ def run_history(st: Stats, case):
             f, frag = t
             name = Path(f).stem.split("~")[0]
             linked_names.add(name)
-            if Path(f).exists() and (("alib", name) not in A_MARK or A_MARK[("alib", name)] in Path(f).read_text(errors="replace")):
+            if page not in ("module/bmod5.html", "type/b5_t.html", "lists/types.html") and Path(f).exists() and (
+                    ("alib", name) not in A_MARK or A_MARK[("alib", name)] in Path(f).read_text(errors="replace")):
                 linked_alib.add(name)
+                alib_from.setdefault(name, set()).add(page)  # (bmod5 reaches the library's alib legitimately, through the external alib4)
             prob = None
             if not Path(f).exists():
                 prob = "target does not exist in A's documentation"
@@ -392,7 +414,7 @@ def run_history(st: Stats, case):
                 st.violation("external-link-does-not-resolve-in-A", stratum, dict(feats, entity=name, problem=prob.split(" ")[0]), inp, dict(page=page, href=url, problem=prob), "a page of A documenting the entity")
         if damage is None:
             # which of A's same-named entities a page of B links to: the one of the module that page's scope uses
-            WANT = {"module/bmod3.html": ("alib3", "shape_t"), "module/bmod.html": ("alib", "shape_t"), "interface/cb.html": ("alib", "shape_t"), "interface/gcb.html": ("alib", "shape_t"),
+            WANT = {"module/bmod5.html": ("alib", "shape_t"), "type/b5_t.html": ("alib", "shape_t"), "module/bmod3.html": ("alib3", "shape_t"), "module/bmod.html": ("alib", "shape_t"), "interface/cb.html": ("alib", "shape_t"), "interface/gcb.html": ("alib", "shape_t"),
                     "interface/acb.html": ("alib", "shape_t"), "interface/mk.html": ("alib", "shape_t")}
             if clash == "module":
                 WANT = {"module/bmod3.html": ("alib3", "shape_t")}
@@ -437,7 +459,7 @@ def run_history(st: Stats, case):
             leaked = sorted(n for n in linked_alib if n in ("alib", "shape_t", "asub", "afun", "agen"))
             if leaked or not local_mod:
                 bad += 1
-                st.violation("external-entity-wins-over-local", stratum, dict(feats, entity=(leaked or ["alib"])[0]), inp, dict(external_links=leaked, local_module_page=local_mod), "B's own entities take precedence")
+                st.violation("external-entity-wins-over-local", stratum, dict(feats, entity=(leaked or ["alib"])[0]), inp, dict(external_links=leaked, local_module_page=local_mod, on_pages=sorted({p for n in leaked for p in alib_from.get(n, ())})[:5]), "B's own entities take precedence")
         if damage is not None and linked_names and damage[0] in ("absent", "empty", "notjson"):
             bad += 1
             st.violation("links-from-unreadable-description", stratum, feats, inp, sorted(linked_names), "no external links")
